@@ -56,6 +56,13 @@ pub enum Mutation {
     FieldAlias(u8, u8),
     /// declared signal length = real length + m * 2^shift (shift in {8, 16, 32, 48, 56, 63})
     DeclaredLenHighBits { shift: u8, m: u8 },
+    /// the input ends early: kind 0 = right after the five values (no signal part at all), 1 = after
+    /// the length field, 2 = one byte short, 3 = at a generated position
+    Cut { kind: u8, sel: u16 },
+    /// the unmodified message is shown to a second verifier in the same process that holds the same
+    /// tree but another verification key (the shipped key file with two entries of the public-input
+    /// part exchanged): the proof is not valid for the carried values under that key
+    VerifierWithOtherKey,
 }
 
 #[derive(Clone, Copy, Debug, Serialize, Deserialize, PartialEq, Eq)]
@@ -193,7 +200,7 @@ fn build(pool: &Pool, c: &Case) -> (Vec<u8>, Vec<u8>) {
             }
             roots = set.iter().flat_map(cr::enc_fr).collect();
         }
-        Mutation::VerifierTree(_) => {}
+        Mutation::VerifierTree(_) | Mutation::Cut { .. } | Mutation::VerifierWithOtherKey => {}
         Mutation::RootSetSpecial { kind, count, with_root } => {
             let v = match kind % 4 {
                 0 => BigUint::from(0u32),
@@ -208,7 +215,7 @@ fn build(pool: &Pool, c: &Case) -> (Vec<u8>, Vec<u8>) {
             roots = set.iter().flat_map(cr::enc_fr).collect();
         }
     }
-    let input = match c.target {
+    let mut input = match c.target {
         Target::Verify => msg,
         _ => {
             let mut v = msg;
@@ -218,6 +225,16 @@ fn build(pool: &Pool, c: &Case) -> (Vec<u8>, Vec<u8>) {
             v
         }
     };
+    if let Mutation::Cut { kind, sel } = &c.mutation {
+        let n = input.len();
+        let at = match kind % 4 {
+            0 => 288,
+            1 => 296,
+            2 => n.saturating_sub(1),
+            _ => pick_index(*sel, n),
+        };
+        input.truncate(at.min(n));
+    }
     (input, roots)
 }
 
@@ -333,9 +350,90 @@ fn run_verifier_tree(pool: &Pool, c: &Case, ops: &[TOp], o: &mut Outcome) {
     });
 }
 
+thread_local! {
+    /// a verifier per shard thread with the pool's tree and another verification key
+    static OTHER_KEY: std::cell::RefCell<Option<rln::public::RLN>> = const { std::cell::RefCell::new(None) };
+}
+
+/// the shipped key file with IC[1] and IC[2] (section 3, 64 bytes per point) exchanged: a well-formed
+/// key file holding a different verification key
+fn zkey_with_other_verification_key() -> Result<Vec<u8>, String> {
+    let zkey = rln::circuit::ZKEY_BYTES;
+    let mut out = zkey.to_vec();
+    let sections = u32::from_le_bytes(zkey[8..12].try_into().unwrap());
+    let mut pos = 12usize;
+    for _ in 0..sections {
+        let id = u32::from_le_bytes(zkey[pos..pos + 4].try_into().unwrap());
+        let len = u64::from_le_bytes(zkey[pos + 4..pos + 12].try_into().unwrap()) as usize;
+        pos += 12;
+        if id == 3 {
+            if len != 6 * 64 {
+                return Err(format!("IC section has {len} bytes, expected 384"));
+            }
+            let (a, b) = (pos + 64, pos + 128);
+            out[a..a + 64].copy_from_slice(&zkey[b..b + 64]);
+            out[b..b + 64].copy_from_slice(&zkey[a..a + 64]);
+            return Ok(out);
+        }
+        pos += len;
+    }
+    Err("no IC section in the key file".into())
+}
+
+fn run_other_key(pool: &Pool, c: &Case, o: &mut Outcome) {
+    let g = &pool.msgs[c.golden as usize % pool.msgs.len()];
+    OTHER_KEY.with(|cell| {
+        let mut slot = cell.borrow_mut();
+        if slot.is_none() {
+            let built = zkey_with_other_verification_key().and_then(|z| {
+                guarded(|| rln::public::RLN::new_with_params(DEPTH, z, crate::rlnh::graph_bytes().to_vec(), std::io::Cursor::new("{}".to_string())).map_err(|e| e.to_string())).map_err(|p| p.0).and_then(|r| r)
+            });
+            let mut r = match built {
+                Ok(r) => r,
+                Err(e) => {
+                    vfail!(o, "cannot build a verifier from the key file with exchanged IC entries: {e}");
+                    return;
+                }
+            };
+            for x in &pool.msgs {
+                if set_leaf_big(&mut r, x.req.index, &x.req.rate_commitment()).is_err() {
+                    vfail!(o, "cannot build the second verifier's tree");
+                    return;
+                }
+            }
+            if get_root_big(&r) != pool.root {
+                vfail!(o, "the second verifier's tree root differs from the pool's");
+                return;
+            }
+            *slot = Some(r);
+        }
+        let r = slot.as_ref().unwrap();
+        let vi = verify_input(&g.msg, &g.signal);
+        let (what, v) = match c.target {
+            Target::Verify => ("verify", call_verify(r, &g.msg)),
+            Target::VerifyRln => ("verify_rln_proof", call_verify_rln(r, &vi)),
+            Target::VerifyRoots => ("verify_with_roots", call_verify_roots(r, &vi, &cr::enc_fr(&pool.root))),
+        };
+        o.nontrivial = true;
+        if v.is_true() {
+            vfail!(o, "{what} of a verifier holding another verification key (same tree, same process) accepted a message proven for the shipped key");
+            return;
+        }
+        // and the shipped key's verifier still accepts it
+        let v2 = call_verify_rln(&pool.rln, &vi);
+        if !v2.is_true() {
+            vfail!(o, "after the other verifier was asked, the shipped key's verifier no longer accepts the message: {v2:?}");
+        }
+    });
+}
+
 fn run(pool: &Pool, c: &Case, o: &mut Outcome) {
     if let Mutation::VerifierTree(ops) = &c.mutation {
         run_verifier_tree(pool, c, ops, o);
+        return;
+    }
+    if matches!(c.mutation, Mutation::VerifierWithOtherKey) {
+        run_other_key(pool, c, o);
         return;
     }
     let g = &pool.msgs[c.golden as usize % pool.msgs.len()];
@@ -365,7 +463,7 @@ impl Property for C02 {
         "C02"
     }
     fn rule(&self) -> String {
-        "a pool of accepted messages (C01's generator) x modifications of the decoded message: each of root / external nullifier / x / y / nullifier replaced by +1, -1, another field's value, 0, a random value or the same field of another accepted message; two fields swapped; any single bit of the 128 proof bytes flipped; the proof of another accepted message; signal byte flipped / appended / truncated / emptied / replaced, with and without adjusting the declared length; declared length extended over trailing bytes or changed only in its high bits (real length + m*2^k, k in 8..63); each public value re-encoded as v + k*p; root sets without the root, with it at every position, with near-misses root±1, made only of distinguished values (zero entries, the empty tree's root, p-1, 1) with and without the real root, and empty; on verify / verify_rln_proof / verify_with_roots. Generated VerifierTree cases: up to 7 changes of the verifier's own tree after proving (writes/deletes at the sibling, neighbours, other members, overwriting/deleting/restoring the prover's leaf, restoring everything) with verify_rln_proof after every step: accepted exactly when the ideal tree's root equals the message's root. Fixed part: verifier tree changed after proving (set/delete other leaves, the prover's leaf) and restored. A quarter of the cases have every verification call made by a second long-lived thread of the caller (taking turns with the thread that proves and changes the tree). \
+        "a pool of accepted messages (C01's generator) x modifications of the decoded message: each of root / external nullifier / x / y / nullifier replaced by +1, -1, another field's value, 0, a random value or the same field of another accepted message; two fields swapped; any single bit of the 128 proof bytes flipped; the proof of another accepted message; signal byte flipped / appended / truncated / emptied / replaced, with and without adjusting the declared length; declared length extended over trailing bytes or changed only in its high bits (real length + m*2^k, k in 8..63); each public value re-encoded as v + k*p; the input cut right after the five values (no signal part), after the length field, one byte short or at a generated position; root sets without the root, with it at every position, with near-misses root±1, made only of distinguished values (zero entries, the empty tree's root, p-1, 1) with and without the real root, and empty; on verify / verify_rln_proof / verify_with_roots; the unmodified message shown to a second verifier in the same process holding the same tree and another verification key (the shipped key file with two public-input entries exchanged) — never accepted, and the first verifier still accepts it. Generated VerifierTree cases: up to 7 changes of the verifier's own tree after proving (writes/deletes at the sibling, neighbours, other members, overwriting/deleting/restoring the prover's leaf, restoring everything) with verify_rln_proof after every step: accepted exactly when the ideal tree's root equals the message's root. Fixed part: verifier tree changed after proving (set/delete other leaves, the prover's leaf) and restored. A quarter of the cases have every verification call made by a second long-lived thread of the caller (taking turns with the thread that proves and changes the tree). \
          non-trivial = a modification that breaks exactly one of the three conditions; distinct by case content".into()
     }
     fn assumptions(&self) -> Vec<String> {
@@ -397,6 +495,8 @@ impl Property for C02 {
             2 => (0u8..4, any::<u8>(), any::<bool>()).prop_map(|(kind, count, with_root)| Mutation::RootSetSpecial { kind, count, with_root }),
             3 => (0u8..5, any::<u8>()).prop_map(|(f, k)| Mutation::FieldAlias(f, k)),
             2 => (0u8..6, any::<u8>()).prop_map(|(shift, m)| Mutation::DeclaredLenHighBits { shift, m }),
+            2 => (0u8..4, any::<u16>()).prop_map(|(kind, sel)| Mutation::Cut { kind, sel }),
+            1 => Just(Mutation::VerifierWithOtherKey),
             1 => proptest::collection::vec(prop_oneof![
                     4 => (any::<u16>(), 0u8..6).prop_map(|(s, v)| TOp::SetOther(s, v)),
                     2 => any::<u16>().prop_map(TOp::DeleteOther),
